@@ -174,6 +174,22 @@ def run_async(su, body, td, c1, c2, ncl, d, timeout, stop_at, broken, suppress, 
     _pub, observers_after = _get_global_publisher_and_observers()
     if observers_after != observers_before or list(log.theLogPublisher.observers) != legacy_before:
         problems.append("Twisted log observers not restored")
+    # a following, completely clean test on the same runner configuration must succeed: nothing (logged errors,
+    # observers, junk) may leak from one run into the next
+    class Clean(testtools.TestCase):
+        run_tests_with = (AsynchronousDeferredRunTestForBrokenTwisted if broken else AsynchronousDeferredRunTest).make_factory(
+            reactor=VReactor(), timeout=timeout, suppress_twisted_logging=suppress, store_twisted_logs=store)
+
+        def test_clean(self):
+            pass
+    r2 = doubles.ExtendedTestResult()
+    try:
+        Clean("test_clean").run(r2)
+        n2 = [e[0] for e in r2._events]
+        if n2 != ["startTest", "addSuccess", "stopTest"]:
+            problems.append("a clean test run right afterwards was reported as %r" % (n2,))
+    except Exception as e:
+        problems.append("a clean test run right afterwards raised %r" % (e,))
     det = [e for e in result._events if e[0].startswith("add")][0]
     keys = sorted(det[2]) if len(det) > 2 and isinstance(det[2], dict) else []
     if store and "twisted-log" not in keys:
@@ -234,6 +250,8 @@ def _shards(tier):
             for su in range(10):
                 out.append(({"mf": 2, "cfg": cfg, "su": su, "timeout": 2, "ncl": 1}, 1800))
         out += [({"mf": 1, "cfg": 3, "timeout": t, "ncl": n}, 1800) for t in (1, 3) for n in (0, 2)]
+        # two cleanups with a failing / Deferred-failing setUp: the cleanup chain must still be awaited
+        out += [({"mf": 2, "cfg": 0, "su": su, "timeout": 3, "ncl": 2}, 1800) for su in (1, 3)]
     else:
         for cfg in range(4):
             for su in range(10):
@@ -261,7 +279,8 @@ HARNESSES = [
                              "delayed call, log.err, drops a failed Deferred, skip, fail} with at most 2 non-returning stages (1 cleanup; "
                              "and at most 1 with 0 or 2 cleanups), d in 0..2, timeout 2 (1 and 3 in the second group), stop request at "
                              "0..3 or never, runner/logging configurations {plain+suppress+store, ForBrokenTwisted+store, plain, "
-                             "ForBrokenTwisted+suppress}; virtual-time reactor",
+                             "ForBrokenTwisted+suppress}; failing setUp with 2 cleanups; after every program a clean test is run and must succeed; "
+                             "virtual-time reactor",
                     "thorough": "all four configurations x timeouts 1..3 with one cleanup, and two cleanups at timeout 2"},
             rule="non-trivial = some stage does not simply return",
             twin_fix={"mf": 2, "cfg": 0, "su": 0, "timeout": 2, "ncl": 1},
